@@ -1,0 +1,54 @@
+// Verification hooks: only compiled with `--cfg circular_buffer_verif`.
+//
+// These accessors let an external harness construct a buffer in an arbitrary internal layout and
+// observe where elements are stored. They add no behaviour to the crate and are not part of its
+// public API.
+
+use crate::CircularBuffer;
+use core::mem::MaybeUninit;
+
+impl<const N: usize, T> CircularBuffer<N, T> {
+    /// Physical index of the front element.
+    #[doc(hidden)]
+    pub fn verif_start(&self) -> usize {
+        self.start
+    }
+
+    /// Address of the first physical slot.
+    #[doc(hidden)]
+    pub fn verif_items_ptr(&self) -> *const MaybeUninit<T> {
+        self.items.as_ptr()
+    }
+
+    /// Mutable address of the first physical slot.
+    #[doc(hidden)]
+    pub fn verif_items_mut_ptr(&mut self) -> *mut MaybeUninit<T> {
+        self.items.as_mut_ptr()
+    }
+
+    /// Builds a buffer from its raw parts.
+    ///
+    /// # Safety
+    ///
+    /// `start < N` (or `start == 0` if `N == 0`), `size <= N`, and the `size` slots starting at
+    /// `start` (wrapping around) must be initialized.
+    #[doc(hidden)]
+    pub unsafe fn verif_from_raw_parts(
+        start: usize,
+        size: usize,
+        items: [MaybeUninit<T>; N],
+    ) -> Self {
+        Self { size, start, items }
+    }
+
+    /// Overwrites the layout of a buffer.
+    ///
+    /// # Safety
+    ///
+    /// Same requirements as `verif_from_raw_parts`.
+    #[doc(hidden)]
+    pub unsafe fn verif_set_layout(&mut self, start: usize, size: usize) {
+        self.start = start;
+        self.size = size;
+    }
+}
